@@ -38,6 +38,7 @@ var profiles = map[string]Profile{
 	"resetf":    {Name: "resetf", Clients: 2, Resources: 4, Stimuli: 22, Refs: true, Collections: true, Unsub: true, Resets: true, Clean: true, ResetFaults: true},
 	"scdisc":    {Name: "scdisc", Clients: 2, Resources: 3, Refs: true, Unsub: true, Reaccess: true, Tokens: true, Calls: true, Resets: true, Disconnect: true, Endgame: true, Scenario: "disc"},
 	"scdisct":   {Name: "scdisct", Clients: 2, Resources: 3, Refs: true, Unsub: true, Reaccess: true, Tokens: true, Calls: true, Resets: true, Disconnect: true, Endgame: true, Throttle: 1, Scenario: "disc"},
+	"http":      {Name: "http", Clients: 1, Resources: 3, Stimuli: 20, Refs: true, Collections: true, Unsub: true, Calls: true, Reaccess: true, Tokens: true, Denials: true, Faults: true, HTTP: true, Clean: true, Endgame: true},
 	"reset":     {Name: "reset", Clients: 2, Resources: 4, Stimuli: 22, Refs: true, Collections: true, Unsub: true, Resets: true, Clean: true},
 	"malformed": {Name: "malformed", Clients: 2, Resources: 4, Stimuli: 26, Refs: true, Collections: true, Unsub: true, Calls: true, Malformed: true, Clean: true, Endgame: true},
 	"stop":      {Name: "stop", Clients: 3, Resources: 4, Stimuli: 20, Refs: true, Collections: true, Unsub: true, Calls: true, Disconnect: true, Evict: true, StopAt: true},
